@@ -173,9 +173,12 @@ class Scheduler(object):
         ok = self._finished.wait(self.watchdog_s)
         if not ok:
             self.aborted = 'watchdog'
-            self.abort_info = {'blocked': self._blocked_info(), 'choices': list(self.choices)}
+            self.abort_info = {'blocked': self._blocked_info(), 'choices': list(self.choices), 'stacks': self._stacks(),
+                               'holder': self.cur.name if self.cur is not None else None}
             self._release_all()
-            raise SchedTimeout('scheduler watchdog (%.0fs) expired; choices so far: %r' % (self.watchdog_s, self.choices))
+            err = SchedTimeout('scheduler watchdog (%.0fs) expired; choices so far: %r' % (self.watchdog_s, self.choices))
+            err.info = self.abort_info
+            raise err
         for t in self.threads:
             if t.thread is not None:
                 t.thread.join(self.watchdog_s)
@@ -345,6 +348,20 @@ class Scheduler(object):
             me.state, me.pred, me.what = 'ready', None, None
 
     # ---------------------------------------------------------------------------------------------- aborting
+    def _stacks(self):
+        """where the OS thread of every unfinished logical thread stands now (innermost frame first)"""
+        frames = sys._current_frames()
+        out = {}
+        for t in self.threads:
+            f = frames.get(t.thread.ident) if t.thread is not None else None
+            stack = []
+            while f is not None and len(stack) < 60:
+                stack.append([f.f_code.co_filename, f.f_lineno, f.f_code.co_name])
+                f = f.f_back
+            if t.state != 'done':
+                out[t.name] = stack
+        return out
+
     def _blocked_info(self):
         return [{'thread': t.name, 'state': t.state, 'waits_for': t.what} for t in self.threads if t.state != 'done']
 
